@@ -214,4 +214,15 @@ def canon_exact_to_infinite_K : Kind :=
 theorem witness_canon_exact_to_infinite :
     canon_exact_to_infinite_K.canonicalize.eq canon_exact_to_infinite_K = false ∧ canonClass canon_exact_to_infinite_K = .canon_exact_to_infinite := by decide
 
+/-! model-only witness (an `Exact(never)` unknown cannot be built through the public constructors):
+    `Unknown::is_superset` accepts `Exact(k)` ⊇ `Infinite` as soon as `k.is_any()`, which holds for `never`. -/
+def superset_exact_isAny_A : Kind :=
+  Kind.ofObject (.mk .nil (.exact Kind.never))
+def superset_exact_isAny_v : Value := .obj (.cons [97] (.int 1) .nil)
+theorem witness_superset_exact_isAny :
+    superset_exact_isAny_A.isSuperset Kind.anyObject = true ∧
+    mem superset_exact_isAny_v Kind.anyObject = true ∧
+    mem superset_exact_isAny_v superset_exact_isAny_A = false ∧
+    superset_exact_isAny_A.anyUnknown Unknown.exactIsAny = true := by decide
+
 end C19.W
